@@ -56,6 +56,8 @@ def next_token(text, prev=None):
     """
     while text.hasNext():
         for name, f in tokenizers:
+            if not text.hasNext():  # ignored characters ran to the end
+                break
             current_token = f(text, prev=prev)
             if current_token is not None:
                 return current_token
@@ -232,7 +234,7 @@ def tokenize_ignore(text, prev=None):
     >>> print(*tokenize(categorize('\x00hello')))
     hello
     """
-    while text.peek().category in (CC.Ignored, CC.Invalid):
+    while text.hasNext() and text.peek().category in (CC.Ignored, CC.Invalid):
         text.forward(1)
 
 
